@@ -472,8 +472,8 @@ def gate_profiles(f):
             continue
         name = next((peel(a).get('v') for a in args if peel(a).get('k') == 'lit' and str(peel(a).get('v', '')).startswith('s:')), None)
         prof = Counter()
-        for op, depths in nesting_profile({'body': clos[0]['body']}).items():
-            prof[op] += len(depths)
+        for op, depths in nesting_profile({'body': clos[0]['body'], 'params': clos[0].get('params', [])}, builtin=True).items():
+            prof[op] += len(depths)          # operations, literals (column indices, rotations, coefficients) and the def-use shape of the closure
         for x in walk(clos[0]['body']):
             if x.get('k') == 'array':
                 prof['constraint-list elements'] += len(x.get('es', []))
